@@ -7,11 +7,12 @@ for d in sorted(glob.glob('/verif/seeded/*/meta.json')):
     rows.append((m['id'], m['property_broken'], ", ".join(m['caught_by']) or "-", ", ".join(m['missed_by']) or "-",
                  m['needs_to_manifest']))
 txt = "\n## 10. Which checks catch which seeded changes\n\n"
-txt += ("%d changes were written by independent sub-agents in three rounds, each agent given only the text of one\n"
+txt += ("%d changes were written by independent sub-agents in five rounds, each agent given only the text of one\n"
         "property and a scratch worktree of /repo (nothing from /verif), and asked for a change that compiles, passes the\n"
         "289 pinned tests and needs something specific to manifest (the third round was told to avoid name collisions and\n"
         "missing copies, and to look for early-stopping fixpoints, incrementally updated caches, asymmetric operands,\n"
-        "boundary cases and helpers shared by two callers). Each was confirmed here in a scratch worktree of /repo HEAD\n"
+        "boundary cases and helpers shared by two callers; the fifth to look at subclass overrides, operator forms,\n"
+        "constructor-argument paths, values of different types and falsy values). Each was confirmed here in a scratch worktree of /repo HEAD\n"
         "(`tools/seedcheck.sh`: the suite passes with the change, the demonstration fails with it and passes without it)\n"
         "and is kept under `/verif/seeded/<id>/` (`patch.diff`, `demo.py`, `notes.md`, `meta.json` with what was run).\n"
         "One patch (C03-memoised-eclosure-cycles) was rebased by hand onto the tree after fix 7844e2c. To run a check\n"
@@ -49,6 +50,13 @@ re-verified on the unchanged tree over several `VERIF_SEED` values):
   `set_start_state`, `set_start_stack_symbol`; scenario templates `pda_reintersect`, `pda_reconvert`.
 * C13-r3-final-state-index: C13 now converts the *results* of conversions again (all four second-level chains), the
   reference of the second conversion being the extraction of the intermediate PDA.
+* Round 5 (subclass overrides, operator forms, constructor paths, mixed types): automata and PDAs are now also built by
+  handing a ready-made transition function (with its own State / Symbol objects) to the constructor -- which exposed
+  defect FX-34 in the pinned library -- ; C11 tries the refused operand through `&` as well; C16 applies operations to
+  the results of operations and has transducers with int and str state names; the grammar workload has terminals of
+  mutually incomparable types; EBNF lines may have an empty right-hand side. One round-5 change (`to_fst` walking the
+  declared sets instead of the transition function) stopped being a defect once fix FX-34 made the constructor register
+  the transition function's content, and is not kept.
 * FX-26 (stale converter index, re-introduced by `./selftest regressions`): scenario template `reintersect` with a
   four-state DFA whose state set re-hashes when a fifth state is added.
 
